@@ -1,5 +1,11 @@
 import RV.Proofs.VarAux
 import RV.Proofs.VarKepler
+import RV.Gen.C16Dispatch
+import RV.Proofs.VarMegno
+import RV.Proofs.VarDeriv2a
+import RV.Proofs.VarDeriv2b
+import RV.Proofs.VarDeriv3a
+import RV.Proofs.VarDeriv3b
 /-
   C16 — variational particles are the derivatives of the trajectory.
 
@@ -440,5 +446,511 @@ theorem c16_rescale_real_particles_untouched (exp log : K → K) (hadd : ∀ a b
     (rescaleVar (fieldOps log) thr nReal sync mem cfgs).mem k = mem k :=
   (c16_rescale_var exp log hadd hlog thr hthr nReal sync cfgs mem hd).2 k
     (fun vc hvc hin => by have := hidx vc hvc; have := hin.1; omega)
+
+end RV.Var
+
+/-! ### the element-derivative constructors (derivatives.c) are ε-parts of the constructors
+
+`RV.Gen.C16Deriv.d_*` are the 65 `reb_particle_derivative_*` functions, translated mechanically
+from src/derivatives.c by rv/extract_c16.py on every run and compared bit for bit with the
+compiled functions.  `palMap` / `orbMap` are `reb_particle_from_pal` / `reb_particle_from_orbit`
+relative to the primary (also tied bitwise).  Below: each first-derivative function is the
+ε-part of the map on `Dual K`, each second-derivative function the ε₁ε₂-part on `Dual (Dual K)`
+(`v1`: varied along ε₁, `v2`: along ε₂, `v12`: along both).  `o.sin`, `o.cos` are arbitrary
+functions — the dual lift *is* the chain rule —, `o.sqrt` only has to satisfy the relations
+between the different square roots the C code takes (stated per theorem; all true for the real
+square root of positive arguments), `sgn` is the derivative of `fabs` (1 for inclination < π).
+`_partial`: through Pal's implicit (p,q): the derivatives of (p,q) are those the function
+itself computes (first order: closed forms, justified by `c16_pal_kepler_linearised`; second
+order: `pq2_*`, read out of the generated function).
+NOT proved (stay numerical, mpmath ≤3e-11): `h_lambda, k_lambda, h_h, k_h, k_k` (their formulas
+were simplified with Pal's Kepler relations and sin²+cos²=1; `ring` alone does not close them)
+and `e_e` (needs the reduction e² = 1 − (√(1−e²))² inside a degree-10 identity). -/
+namespace RV.Var
+open RV RV.Gen.C16Deriv
+variable {K : Type} [Field K] [CharZero K]
+
+/-- the first derivatives of (p,q) used by every function through the implicit Pal variables
+    solve the linearised Pal Kepler equations  p = k·sin F − h·cos F,  q = k·cos F + h·sin F,
+    F = λ+p:  for each of λ, h, k the ε-parts of both residuals vanish (given the equations
+    themselves and sin²+cos² = 1) -/
+theorem c16_pal_kepler_linearised (o : DOps K) (sgn : K → K) (lam k h p q : K)
+    (hP : p = k * o.sin (lam + p) - h * o.cos (lam + p)) (hQ : q = k * o.cos (lam + p) + h * o.sin (lam + p))
+    (hT : o.sin (lam + p) * o.sin (lam + p) + o.cos (lam + p) * o.cos (lam + p) = 1) (hq : 1 - q ≠ 0) :
+    let R1 := fun (l' k' h' p' q' : Dual K) => p' - (k' * (o.lift sgn).sin (l' + p') - h' * (o.lift sgn).cos (l' + p'))
+    let R2 := fun (l' k' h' p' q' : Dual K) => q' - (k' * (o.lift sgn).cos (l' + p') + h' * (o.lift sgn).sin (l' + p'))
+    let S := o.sin (lam + p)
+    let C := o.cos (lam + p)
+    (R1 (var1 lam) (cst k) (cst h) ⟨p, q / (1 - q)⟩ ⟨q, -p / (1 - q)⟩).eps = 0 ∧
+    (R2 (var1 lam) (cst k) (cst h) ⟨p, q / (1 - q)⟩ ⟨q, -p / (1 - q)⟩).eps = 0 ∧
+    (R1 (cst lam) (cst k) (var1 h) ⟨p, 1 / (1 - q) * (-C)⟩ ⟨q, 1 / (1 - q) * (S - h)⟩).eps = 0 ∧
+    (R2 (cst lam) (cst k) (var1 h) ⟨p, 1 / (1 - q) * (-C)⟩ ⟨q, 1 / (1 - q) * (S - h)⟩).eps = 0 ∧
+    (R1 (cst lam) (var1 k) (cst h) ⟨p, 1 / (1 - q) * S⟩ ⟨q, 1 / (1 - q) * (C - k)⟩).eps = 0 ∧
+    (R2 (cst lam) (var1 k) (cst h) ⟨p, 1 / (1 - q) * S⟩ ⟨q, 1 / (1 - q) * (C - k)⟩).eps = 0 := by
+  simp only [cst, var1, lift_sin, lift_cos, Dual.add_re, Dual.add_eps, Dual.sub_re, Dual.sub_eps, Dual.mul_re, Dual.mul_eps,
+    Dual.const_re, Dual.const_eps, sc_zero, sc_hadd, sc_hsub, sc_hmul, sc_hneg]
+  generalize o.sin (lam + p) = s at *
+  generalize o.cos (lam + p) = cc at *
+  refine ⟨?_, ?_, ?_, ?_, ?_, ?_⟩
+  · field_simp; first | linear_combination hQ | linear_combination -hQ
+  · field_simp; first | linear_combination hP | linear_combination -hP
+  · field_simp; first | linear_combination (-cc) * hQ | linear_combination cc * hQ
+  · field_simp; first | linear_combination h * hT + s * hQ | linear_combination (-h) * hT - s * hQ | linear_combination h * hT - s * hQ | linear_combination (-h) * hT + s * hQ
+  · field_simp; first | linear_combination s * hQ | linear_combination (-s) * hQ
+  · field_simp; first | linear_combination k * hT + cc * hQ | linear_combination (-k) * hT - cc * hQ | linear_combination k * hT - cc * hQ | linear_combination (-k) * hT + cc * hQ
+
+theorem c16_deriv_a_is_eps (o : DOps K) (sgn : K → K) (G m M a lam k h ix iy p q : K)
+    (hS : o.sqrt (G * (m + M) / a) * o.sqrt (G * (m + M) / a) = G * (m + M) / a)
+    (hS3 : o.sqrt (G * (m + M) / (a * a * a)) * a = o.sqrt (G * (m + M) / a))
+    (hS1 : o.sqrt (G * (m + M) / a) ≠ 0) (ha : a ≠ 0) :
+    d_a o G m M a lam k h ix iy p q
+      = epsP7 (palMap (o.lift sgn) (cst G) (cst m) (cst M) (var1 a) (cst lam) (cst k) (cst h) (cst ix) (cst iy) (cst p) (cst q)) :=
+  deriv_a_is_eps o sgn G m M a lam k h ix iy p q hS hS3 hS1 ha
+
+theorem c16_deriv_ix_is_eps (o : DOps K) (sgn : K → K) (G m M a lam k h ix iy p q : K)
+    (hsgn : sgn (4 - ix * ix - iy * iy) = 1) :
+    d_ix o G m M a lam k h ix iy p q
+      = epsP7 (palMap (o.lift sgn) (cst G) (cst m) (cst M) (cst a) (cst lam) (cst k) (cst h) (var1 ix) (cst iy) (cst p) (cst q)) :=
+  deriv_ix_is_eps o sgn G m M a lam k h ix iy p q hsgn
+
+theorem c16_deriv_lambda_is_eps_partial (o : DOps K) (sgn : K → K) (G m M a lam k h ix iy p q : K)
+    (hq : 1 - q ≠ 0) (hl : 2 - (1 - o.sqrt (1 - h * h - k * k)) ≠ 0) :
+    d_lambda o G m M a lam k h ix iy p q
+      = epsP7 (palMap (o.lift sgn) (cst G) (cst m) (cst M) (cst a) (var1 lam) (cst k) (cst h) (cst ix) (cst iy)
+          ⟨p, q / (1 - q)⟩ ⟨q, -p / (1 - q)⟩) :=
+  deriv_lambda_is_eps_partial o sgn G m M a lam k h ix iy p q hq hl
+
+theorem c16_deriv_m_is_eps (o : DOps K) (sgn : K → K) (G m M a lam k h ix iy p q : K)
+    (hS : o.sqrt (G / (a * (m + M))) * o.sqrt (G * (m + M) / a) = G / a) (hS1 : o.sqrt (G * (m + M) / a) ≠ 0) (ha : a ≠ 0) :
+    d_m o G m M a lam k h ix iy p q
+      = epsP7 (palMap (o.lift sgn) (cst G) (var1 m) (cst M) (cst a) (cst lam) (cst k) (cst h) (cst ix) (cst iy) (cst p) (cst q)) :=
+  deriv_m_is_eps o sgn G m M a lam k h ix iy p q hS hS1 ha
+
+theorem c16_deriv_iy_is_eps (o : DOps K) (sgn : K → K) (G m M a lam k h ix iy p q : K)
+    (hsgn : sgn (4 - ix * ix - iy * iy) = 1) :
+    d_iy o G m M a lam k h ix iy p q
+      = epsP7 (palMap (o.lift sgn) (cst G) (cst m) (cst M) (cst a) (cst lam) (cst k) (cst h) (cst ix) (var1 iy) (cst p) (cst q)) :=
+  deriv_iy_is_eps o sgn G m M a lam k h ix iy p q hsgn
+
+theorem c16_deriv_h_is_eps_partial (o : DOps K) (sgn : K → K) (G m M a lam k h ix iy p q : K)
+    (hq : 1 - q ≠ 0) (hl : 2 - (1 - o.sqrt (1 - h * h - k * k)) ≠ 0) (hL : o.sqrt (1 - h * h - k * k) ≠ 0) :
+    d_h o G m M a lam k h ix iy p q
+      = epsP7 (palMap (o.lift sgn) (cst G) (cst m) (cst M) (cst a) (cst lam) (cst k) (var1 h) (cst ix) (cst iy)
+          ⟨p, 1 / (1 - q) * (-o.cos (lam + p))⟩ ⟨q, 1 / (1 - q) * (o.sin (lam + p) - h)⟩) :=
+  deriv_h_is_eps_partial o sgn G m M a lam k h ix iy p q hq hl hL
+
+theorem c16_deriv_k_is_eps_partial (o : DOps K) (sgn : K → K) (G m M a lam k h ix iy p q : K)
+    (hq : 1 - q ≠ 0) (hl : 2 - (1 - o.sqrt (1 - h * h - k * k)) ≠ 0) (hL : o.sqrt (1 - h * h - k * k) ≠ 0) :
+    d_k o G m M a lam k h ix iy p q
+      = epsP7 (palMap (o.lift sgn) (cst G) (cst m) (cst M) (cst a) (cst lam) (var1 k) (cst h) (cst ix) (cst iy)
+          ⟨p, 1 / (1 - q) * o.sin (lam + p)⟩ ⟨q, 1 / (1 - q) * (o.cos (lam + p) - k)⟩) :=
+  deriv_k_is_eps_partial o sgn G m M a lam k h ix iy p q hq hl hL
+
+theorem c16_deriv_inc_is_eps (o : DOps K) (sgn : K → K) (G m M a e inc Om om f : K) :
+    d_inc o G m M a e inc Om om f
+      = epsP7 (orbMap (o.lift sgn) (cst G) (cst m) (cst M) (cst a) (cst e) (var1 inc) (cst Om) (cst om) (cst f)) :=
+  deriv_inc_is_eps o sgn G m M a e inc Om om f
+
+theorem c16_deriv_Omega_is_eps (o : DOps K) (sgn : K → K) (G m M a e inc Om om f : K) :
+    d_Omega o G m M a e inc Om om f
+      = epsP7 (orbMap (o.lift sgn) (cst G) (cst m) (cst M) (cst a) (cst e) (cst inc) (var1 Om) (cst om) (cst f)) :=
+  deriv_Omega_is_eps o sgn G m M a e inc Om om f
+
+theorem c16_deriv_omega_is_eps (o : DOps K) (sgn : K → K) (G m M a e inc Om om f : K) :
+    d_omega o G m M a e inc Om om f
+      = epsP7 (orbMap (o.lift sgn) (cst G) (cst m) (cst M) (cst a) (cst e) (cst inc) (cst Om) (var1 om) (cst f)) :=
+  deriv_omega_is_eps o sgn G m M a e inc Om om f
+
+theorem c16_deriv_f_is_eps (o : DOps K) (sgn : K → K) (G m M a e inc Om om f : K)
+    (hr : 1 + e * o.cos f ≠ 0) :
+    d_f o G m M a e inc Om om f
+      = epsP7 (orbMap (o.lift sgn) (cst G) (cst m) (cst M) (cst a) (cst e) (cst inc) (cst Om) (cst om) (var1 f)) :=
+  deriv_f_is_eps o sgn G m M a e inc Om om f hr
+
+theorem c16_deriv_e_is_eps (o : DOps K) (sgn : K → K) (G m M a e inc Om om f : K)
+    (hr : 1 + e * o.cos f ≠ 0) (he : 1 - e * e ≠ 0) (ha : a ≠ 0)
+    (hA : o.sqrt (G * (m + M) / a) * o.sqrt (G * (m + M) / a) = G * (m + M) / a)
+    (hE : o.sqrt (1 - e * e) * o.sqrt (1 - e * e) = 1 - e * e)
+    (hV : o.sqrt (G * (m + M) / a / (1 - e * e)) * o.sqrt (1 - e * e) = o.sqrt (G * (m + M) / a))
+    (hV0 : o.sqrt (G * (m + M) / a / (1 - e * e)) ≠ 0) :
+    d_e o G m M a e inc Om om f
+      = epsP7 (orbMap (o.lift sgn) (cst G) (cst m) (cst M) (cst a) (var1 e) (cst inc) (cst Om) (cst om) (cst f)) :=
+  deriv_e_is_eps o sgn G m M a e inc Om om f hr he ha hA hE hV hV0
+
+theorem c16_deriv2_m_m_is_eps (o : DOps K) (sgn : K → K) (G m M a lam k h ix iy p q : K)
+    (hq : 1 - q ≠ 0) (hl : 2 - (1 - o.sqrt (1 - h * h - k * k)) ≠ 0) (ha : a ≠ 0) (hm : m + M ≠ 0) (hS1 : o.sqrt (G * (m + M) / a) ≠ 0) (hS : o.sqrt (G * (m + M) / a) * o.sqrt (G * (m + M) / a) = G * (m + M) / a) (hSm : o.sqrt (G / (a * (m + M))) = o.sqrt (G * (m + M) / a) / (m + M)) (hSmm : o.sqrt (G / (a * (m + M) * (m + M) * (m + M))) = o.sqrt (G * (m + M) / a) / ((m + M) * (m + M))) :
+    d_m_m o G m M a lam k h ix iy p q
+      = epsP72 (palMap (lift2 o sgn) (c2 G) (v12 m) (c2 M) (c2 a) (c2 lam) (c2 k) (c2 h) (c2 ix) (c2 iy)
+          ⟨⟨p, 0⟩, ⟨0, 0⟩⟩ ⟨⟨q, 0⟩, ⟨0, 0⟩⟩) :=
+  deriv2_m_m_is_eps o sgn G m M a lam k h ix iy p q hq hl ha hm hS1 hS hSm hSmm
+
+theorem c16_deriv2_m_a_is_eps (o : DOps K) (sgn : K → K) (G m M a lam k h ix iy p q : K)
+    (hq : 1 - q ≠ 0) (hl : 2 - (1 - o.sqrt (1 - h * h - k * k)) ≠ 0) (ha : a ≠ 0) (hm : m + M ≠ 0) (hS1 : o.sqrt (G * (m + M) / a) ≠ 0) (hS : o.sqrt (G * (m + M) / a) * o.sqrt (G * (m + M) / a) = G * (m + M) / a) (hSm : o.sqrt (G / (a * (m + M))) = o.sqrt (G * (m + M) / a) / (m + M)) (hS3 : o.sqrt (G * (m + M) / (a * a * a)) = o.sqrt (G * (m + M) / a) / a) (hSma : o.sqrt (G / (a * a * a * (m + M))) = o.sqrt (G * (m + M) / a) / (a * (m + M))) :
+    d_m_a o G m M a lam k h ix iy p q
+      = epsP72 (palMap (lift2 o sgn) (c2 G) (v1 m) (c2 M) (v2 a) (c2 lam) (c2 k) (c2 h) (c2 ix) (c2 iy)
+          ⟨⟨p, 0⟩, ⟨0, 0⟩⟩ ⟨⟨q, 0⟩, ⟨0, 0⟩⟩) :=
+  deriv2_m_a_is_eps o sgn G m M a lam k h ix iy p q hq hl ha hm hS1 hS hSm hS3 hSma
+
+theorem c16_deriv2_m_lambda_is_eps_partial (o : DOps K) (sgn : K → K) (G m M a lam k h ix iy p q : K)
+    (hq : 1 - q ≠ 0) (hl : 2 - (1 - o.sqrt (1 - h * h - k * k)) ≠ 0) (ha : a ≠ 0) (hm : m + M ≠ 0) (hS1 : o.sqrt (G * (m + M) / a) ≠ 0) (hS : o.sqrt (G * (m + M) / a) * o.sqrt (G * (m + M) / a) = G * (m + M) / a) (hSm : o.sqrt (G / (a * (m + M))) = o.sqrt (G * (m + M) / a) / (m + M)) :
+    d_m_lambda o G m M a lam k h ix iy p q
+      = epsP72 (palMap (lift2 o sgn) (c2 G) (v1 m) (c2 M) (c2 a) (v2 lam) (c2 k) (c2 h) (c2 ix) (c2 iy)
+          ⟨⟨p, 0⟩, ⟨q / (1 - q), 0⟩⟩ ⟨⟨q, 0⟩, ⟨-p / (1 - q), 0⟩⟩) :=
+  deriv2_m_lambda_is_eps_partial o sgn G m M a lam k h ix iy p q hq hl ha hm hS1 hS hSm
+
+theorem c16_deriv2_m_h_is_eps_partial (o : DOps K) (sgn : K → K) (G m M a lam k h ix iy p q : K)
+    (hq : 1 - q ≠ 0) (hl : 2 - (1 - o.sqrt (1 - h * h - k * k)) ≠ 0) (hL : o.sqrt (1 - h * h - k * k) ≠ 0) (ha : a ≠ 0) (hm : m + M ≠ 0) (hS1 : o.sqrt (G * (m + M) / a) ≠ 0) (hS : o.sqrt (G * (m + M) / a) * o.sqrt (G * (m + M) / a) = G * (m + M) / a) (hSm : o.sqrt (G / (a * (m + M))) = o.sqrt (G * (m + M) / a) / (m + M)) :
+    d_m_h o G m M a lam k h ix iy p q
+      = epsP72 (palMap (lift2 o sgn) (c2 G) (v1 m) (c2 M) (c2 a) (c2 lam) (c2 k) (v2 h) (c2 ix) (c2 iy)
+          ⟨⟨p, 0⟩, ⟨1 / (1 - q) * (-o.cos (lam + p)), 0⟩⟩ ⟨⟨q, 0⟩, ⟨1 / (1 - q) * (o.sin (lam + p) - h), 0⟩⟩) :=
+  deriv2_m_h_is_eps_partial o sgn G m M a lam k h ix iy p q hq hl hL ha hm hS1 hS hSm
+
+theorem c16_deriv2_m_k_is_eps_partial (o : DOps K) (sgn : K → K) (G m M a lam k h ix iy p q : K)
+    (hq : 1 - q ≠ 0) (hl : 2 - (1 - o.sqrt (1 - h * h - k * k)) ≠ 0) (hL : o.sqrt (1 - h * h - k * k) ≠ 0) (ha : a ≠ 0) (hm : m + M ≠ 0) (hS1 : o.sqrt (G * (m + M) / a) ≠ 0) (hS : o.sqrt (G * (m + M) / a) * o.sqrt (G * (m + M) / a) = G * (m + M) / a) (hSm : o.sqrt (G / (a * (m + M))) = o.sqrt (G * (m + M) / a) / (m + M)) :
+    d_m_k o G m M a lam k h ix iy p q
+      = epsP72 (palMap (lift2 o sgn) (c2 G) (v1 m) (c2 M) (c2 a) (c2 lam) (v2 k) (c2 h) (c2 ix) (c2 iy)
+          ⟨⟨p, 0⟩, ⟨1 / (1 - q) * o.sin (lam + p), 0⟩⟩ ⟨⟨q, 0⟩, ⟨1 / (1 - q) * (o.cos (lam + p) - k), 0⟩⟩) :=
+  deriv2_m_k_is_eps_partial o sgn G m M a lam k h ix iy p q hq hl hL ha hm hS1 hS hSm
+
+theorem c16_deriv2_m_ix_is_eps (o : DOps K) (sgn : K → K) (G m M a lam k h ix iy p q : K)
+    (hq : 1 - q ≠ 0) (hl : 2 - (1 - o.sqrt (1 - h * h - k * k)) ≠ 0) (hsgn : sgn (4 - ix * ix - iy * iy) = 1) (hiz : o.sqrt (o.fabs (4 - ix * ix - iy * iy)) ≠ 0) (ha : a ≠ 0) (hm : m + M ≠ 0) (hS1 : o.sqrt (G * (m + M) / a) ≠ 0) (hS : o.sqrt (G * (m + M) / a) * o.sqrt (G * (m + M) / a) = G * (m + M) / a) (hSm : o.sqrt (G / (a * (m + M))) = o.sqrt (G * (m + M) / a) / (m + M)) :
+    d_m_ix o G m M a lam k h ix iy p q
+      = epsP72 (palMap (lift2 o sgn) (c2 G) (v1 m) (c2 M) (c2 a) (c2 lam) (c2 k) (c2 h) (v2 ix) (c2 iy)
+          ⟨⟨p, 0⟩, ⟨0, 0⟩⟩ ⟨⟨q, 0⟩, ⟨0, 0⟩⟩) :=
+  deriv2_m_ix_is_eps o sgn G m M a lam k h ix iy p q hq hl hsgn hiz ha hm hS1 hS hSm
+
+theorem c16_deriv2_m_iy_is_eps (o : DOps K) (sgn : K → K) (G m M a lam k h ix iy p q : K)
+    (hq : 1 - q ≠ 0) (hl : 2 - (1 - o.sqrt (1 - h * h - k * k)) ≠ 0) (hsgn : sgn (4 - ix * ix - iy * iy) = 1) (hiz : o.sqrt (o.fabs (4 - ix * ix - iy * iy)) ≠ 0) (ha : a ≠ 0) (hm : m + M ≠ 0) (hS1 : o.sqrt (G * (m + M) / a) ≠ 0) (hS : o.sqrt (G * (m + M) / a) * o.sqrt (G * (m + M) / a) = G * (m + M) / a) (hSm : o.sqrt (G / (a * (m + M))) = o.sqrt (G * (m + M) / a) / (m + M)) :
+    d_m_iy o G m M a lam k h ix iy p q
+      = epsP72 (palMap (lift2 o sgn) (c2 G) (v1 m) (c2 M) (c2 a) (c2 lam) (c2 k) (c2 h) (c2 ix) (v2 iy)
+          ⟨⟨p, 0⟩, ⟨0, 0⟩⟩ ⟨⟨q, 0⟩, ⟨0, 0⟩⟩) :=
+  deriv2_m_iy_is_eps o sgn G m M a lam k h ix iy p q hq hl hsgn hiz ha hm hS1 hS hSm
+
+theorem c16_deriv2_a_a_is_eps (o : DOps K) (sgn : K → K) (G m M a lam k h ix iy p q : K)
+    (hq : 1 - q ≠ 0) (hl : 2 - (1 - o.sqrt (1 - h * h - k * k)) ≠ 0) (ha : a ≠ 0) (hm : m + M ≠ 0) (hS1 : o.sqrt (G * (m + M) / a) ≠ 0) (hS : o.sqrt (G * (m + M) / a) * o.sqrt (G * (m + M) / a) = G * (m + M) / a) (hS3 : o.sqrt (G * (m + M) / (a * a * a)) = o.sqrt (G * (m + M) / a) / a) (hS5 : o.sqrt (G * (m + M) / (a * a * a * a * a)) = o.sqrt (G * (m + M) / a) / (a * a)) :
+    d_a_a o G m M a lam k h ix iy p q
+      = epsP72 (palMap (lift2 o sgn) (c2 G) (c2 m) (c2 M) (v12 a) (c2 lam) (c2 k) (c2 h) (c2 ix) (c2 iy)
+          ⟨⟨p, 0⟩, ⟨0, 0⟩⟩ ⟨⟨q, 0⟩, ⟨0, 0⟩⟩) :=
+  deriv2_a_a_is_eps o sgn G m M a lam k h ix iy p q hq hl ha hm hS1 hS hS3 hS5
+
+theorem c16_deriv2_a_lambda_is_eps_partial (o : DOps K) (sgn : K → K) (G m M a lam k h ix iy p q : K)
+    (hq : 1 - q ≠ 0) (hl : 2 - (1 - o.sqrt (1 - h * h - k * k)) ≠ 0) (ha : a ≠ 0) (hm : m + M ≠ 0) (hS1 : o.sqrt (G * (m + M) / a) ≠ 0) (hS : o.sqrt (G * (m + M) / a) * o.sqrt (G * (m + M) / a) = G * (m + M) / a) (hS3 : o.sqrt (G * (m + M) / (a * a * a)) = o.sqrt (G * (m + M) / a) / a) :
+    d_a_lambda o G m M a lam k h ix iy p q
+      = epsP72 (palMap (lift2 o sgn) (c2 G) (c2 m) (c2 M) (v1 a) (v2 lam) (c2 k) (c2 h) (c2 ix) (c2 iy)
+          ⟨⟨p, 0⟩, ⟨q / (1 - q), 0⟩⟩ ⟨⟨q, 0⟩, ⟨-p / (1 - q), 0⟩⟩) :=
+  deriv2_a_lambda_is_eps_partial o sgn G m M a lam k h ix iy p q hq hl ha hm hS1 hS hS3
+
+theorem c16_deriv2_a_h_is_eps_partial (o : DOps K) (sgn : K → K) (G m M a lam k h ix iy p q : K)
+    (hq : 1 - q ≠ 0) (hl : 2 - (1 - o.sqrt (1 - h * h - k * k)) ≠ 0) (hL : o.sqrt (1 - h * h - k * k) ≠ 0) (ha : a ≠ 0) (hm : m + M ≠ 0) (hS1 : o.sqrt (G * (m + M) / a) ≠ 0) (hS : o.sqrt (G * (m + M) / a) * o.sqrt (G * (m + M) / a) = G * (m + M) / a) (hS3 : o.sqrt (G * (m + M) / (a * a * a)) = o.sqrt (G * (m + M) / a) / a) :
+    d_a_h o G m M a lam k h ix iy p q
+      = epsP72 (palMap (lift2 o sgn) (c2 G) (c2 m) (c2 M) (v1 a) (c2 lam) (c2 k) (v2 h) (c2 ix) (c2 iy)
+          ⟨⟨p, 0⟩, ⟨1 / (1 - q) * (-o.cos (lam + p)), 0⟩⟩ ⟨⟨q, 0⟩, ⟨1 / (1 - q) * (o.sin (lam + p) - h), 0⟩⟩) :=
+  deriv2_a_h_is_eps_partial o sgn G m M a lam k h ix iy p q hq hl hL ha hm hS1 hS hS3
+
+theorem c16_deriv2_a_k_is_eps_partial (o : DOps K) (sgn : K → K) (G m M a lam k h ix iy p q : K)
+    (hq : 1 - q ≠ 0) (hl : 2 - (1 - o.sqrt (1 - h * h - k * k)) ≠ 0) (hL : o.sqrt (1 - h * h - k * k) ≠ 0) (ha : a ≠ 0) (hm : m + M ≠ 0) (hS1 : o.sqrt (G * (m + M) / a) ≠ 0) (hS : o.sqrt (G * (m + M) / a) * o.sqrt (G * (m + M) / a) = G * (m + M) / a) (hS3 : o.sqrt (G * (m + M) / (a * a * a)) = o.sqrt (G * (m + M) / a) / a) :
+    d_a_k o G m M a lam k h ix iy p q
+      = epsP72 (palMap (lift2 o sgn) (c2 G) (c2 m) (c2 M) (v1 a) (c2 lam) (v2 k) (c2 h) (c2 ix) (c2 iy)
+          ⟨⟨p, 0⟩, ⟨1 / (1 - q) * o.sin (lam + p), 0⟩⟩ ⟨⟨q, 0⟩, ⟨1 / (1 - q) * (o.cos (lam + p) - k), 0⟩⟩) :=
+  deriv2_a_k_is_eps_partial o sgn G m M a lam k h ix iy p q hq hl hL ha hm hS1 hS hS3
+
+theorem c16_deriv2_a_ix_is_eps (o : DOps K) (sgn : K → K) (G m M a lam k h ix iy p q : K)
+    (hq : 1 - q ≠ 0) (hl : 2 - (1 - o.sqrt (1 - h * h - k * k)) ≠ 0) (hsgn : sgn (4 - ix * ix - iy * iy) = 1) (hiz : o.sqrt (o.fabs (4 - ix * ix - iy * iy)) ≠ 0) (ha : a ≠ 0) (hm : m + M ≠ 0) (hS1 : o.sqrt (G * (m + M) / a) ≠ 0) (hS : o.sqrt (G * (m + M) / a) * o.sqrt (G * (m + M) / a) = G * (m + M) / a) (hS3 : o.sqrt (G * (m + M) / (a * a * a)) = o.sqrt (G * (m + M) / a) / a) :
+    d_a_ix o G m M a lam k h ix iy p q
+      = epsP72 (palMap (lift2 o sgn) (c2 G) (c2 m) (c2 M) (v1 a) (c2 lam) (c2 k) (c2 h) (v2 ix) (c2 iy)
+          ⟨⟨p, 0⟩, ⟨0, 0⟩⟩ ⟨⟨q, 0⟩, ⟨0, 0⟩⟩) :=
+  deriv2_a_ix_is_eps o sgn G m M a lam k h ix iy p q hq hl hsgn hiz ha hm hS1 hS hS3
+
+theorem c16_deriv2_a_iy_is_eps (o : DOps K) (sgn : K → K) (G m M a lam k h ix iy p q : K)
+    (hq : 1 - q ≠ 0) (hl : 2 - (1 - o.sqrt (1 - h * h - k * k)) ≠ 0) (hsgn : sgn (4 - ix * ix - iy * iy) = 1) (hiz : o.sqrt (o.fabs (4 - ix * ix - iy * iy)) ≠ 0) (ha : a ≠ 0) (hm : m + M ≠ 0) (hS1 : o.sqrt (G * (m + M) / a) ≠ 0) (hS : o.sqrt (G * (m + M) / a) * o.sqrt (G * (m + M) / a) = G * (m + M) / a) (hS3 : o.sqrt (G * (m + M) / (a * a * a)) = o.sqrt (G * (m + M) / a) / a) :
+    d_a_iy o G m M a lam k h ix iy p q
+      = epsP72 (palMap (lift2 o sgn) (c2 G) (c2 m) (c2 M) (v1 a) (c2 lam) (c2 k) (c2 h) (c2 ix) (v2 iy)
+          ⟨⟨p, 0⟩, ⟨0, 0⟩⟩ ⟨⟨q, 0⟩, ⟨0, 0⟩⟩) :=
+  deriv2_a_iy_is_eps o sgn G m M a lam k h ix iy p q hq hl hsgn hiz ha hm hS1 hS hS3
+
+theorem c16_deriv2_lambda_lambda_is_eps_partial (o : DOps K) (sgn : K → K) (G m M a lam k h ix iy p q : K)
+    (hq : 1 - q ≠ 0) (hl : 2 - (1 - o.sqrt (1 - h * h - k * k)) ≠ 0) :
+    d_lambda_lambda o G m M a lam k h ix iy p q
+      = epsP72 (palMap (lift2 o sgn) (c2 G) (c2 m) (c2 M) (c2 a) (v12 lam) (c2 k) (c2 h) (c2 ix) (c2 iy)
+          ⟨⟨p, q / (1 - q)⟩, ⟨q / (1 - q), (pq2_lambda_lambda o G m M a lam k h ix iy p q).1⟩⟩ ⟨⟨q, -p / (1 - q)⟩, ⟨-p / (1 - q), (pq2_lambda_lambda o G m M a lam k h ix iy p q).2⟩⟩) :=
+  deriv2_lambda_lambda_is_eps_partial o sgn G m M a lam k h ix iy p q hq hl
+
+theorem c16_deriv2_lambda_ix_is_eps_partial (o : DOps K) (sgn : K → K) (G m M a lam k h ix iy p q : K)
+    (hq : 1 - q ≠ 0) (hl : 2 - (1 - o.sqrt (1 - h * h - k * k)) ≠ 0) (hsgn : sgn (4 - ix * ix - iy * iy) = 1) (hiz : o.sqrt (o.fabs (4 - ix * ix - iy * iy)) ≠ 0) :
+    d_lambda_ix o G m M a lam k h ix iy p q
+      = epsP72 (palMap (lift2 o sgn) (c2 G) (c2 m) (c2 M) (c2 a) (v1 lam) (c2 k) (c2 h) (v2 ix) (c2 iy)
+          ⟨⟨p, q / (1 - q)⟩, ⟨0, 0⟩⟩ ⟨⟨q, -p / (1 - q)⟩, ⟨0, 0⟩⟩) :=
+  deriv2_lambda_ix_is_eps_partial o sgn G m M a lam k h ix iy p q hq hl hsgn hiz
+
+theorem c16_deriv2_lambda_iy_is_eps_partial (o : DOps K) (sgn : K → K) (G m M a lam k h ix iy p q : K)
+    (hq : 1 - q ≠ 0) (hl : 2 - (1 - o.sqrt (1 - h * h - k * k)) ≠ 0) (hsgn : sgn (4 - ix * ix - iy * iy) = 1) (hiz : o.sqrt (o.fabs (4 - ix * ix - iy * iy)) ≠ 0) :
+    d_lambda_iy o G m M a lam k h ix iy p q
+      = epsP72 (palMap (lift2 o sgn) (c2 G) (c2 m) (c2 M) (c2 a) (v1 lam) (c2 k) (c2 h) (c2 ix) (v2 iy)
+          ⟨⟨p, q / (1 - q)⟩, ⟨0, 0⟩⟩ ⟨⟨q, -p / (1 - q)⟩, ⟨0, 0⟩⟩) :=
+  deriv2_lambda_iy_is_eps_partial o sgn G m M a lam k h ix iy p q hq hl hsgn hiz
+
+theorem c16_deriv2_h_ix_is_eps_partial (o : DOps K) (sgn : K → K) (G m M a lam k h ix iy p q : K)
+    (hq : 1 - q ≠ 0) (hl : 2 - (1 - o.sqrt (1 - h * h - k * k)) ≠ 0) (hL : o.sqrt (1 - h * h - k * k) ≠ 0) (hsgn : sgn (4 - ix * ix - iy * iy) = 1) (hiz : o.sqrt (o.fabs (4 - ix * ix - iy * iy)) ≠ 0) :
+    d_h_ix o G m M a lam k h ix iy p q
+      = epsP72 (palMap (lift2 o sgn) (c2 G) (c2 m) (c2 M) (c2 a) (c2 lam) (c2 k) (v1 h) (v2 ix) (c2 iy)
+          ⟨⟨p, 1 / (1 - q) * (-o.cos (lam + p))⟩, ⟨0, 0⟩⟩ ⟨⟨q, 1 / (1 - q) * (o.sin (lam + p) - h)⟩, ⟨0, 0⟩⟩) :=
+  deriv2_h_ix_is_eps_partial o sgn G m M a lam k h ix iy p q hq hl hL hsgn hiz
+
+theorem c16_deriv2_h_iy_is_eps_partial (o : DOps K) (sgn : K → K) (G m M a lam k h ix iy p q : K)
+    (hq : 1 - q ≠ 0) (hl : 2 - (1 - o.sqrt (1 - h * h - k * k)) ≠ 0) (hL : o.sqrt (1 - h * h - k * k) ≠ 0) (hsgn : sgn (4 - ix * ix - iy * iy) = 1) (hiz : o.sqrt (o.fabs (4 - ix * ix - iy * iy)) ≠ 0) :
+    d_h_iy o G m M a lam k h ix iy p q
+      = epsP72 (palMap (lift2 o sgn) (c2 G) (c2 m) (c2 M) (c2 a) (c2 lam) (c2 k) (v1 h) (c2 ix) (v2 iy)
+          ⟨⟨p, 1 / (1 - q) * (-o.cos (lam + p))⟩, ⟨0, 0⟩⟩ ⟨⟨q, 1 / (1 - q) * (o.sin (lam + p) - h)⟩, ⟨0, 0⟩⟩) :=
+  deriv2_h_iy_is_eps_partial o sgn G m M a lam k h ix iy p q hq hl hL hsgn hiz
+
+theorem c16_deriv2_k_ix_is_eps_partial (o : DOps K) (sgn : K → K) (G m M a lam k h ix iy p q : K)
+    (hq : 1 - q ≠ 0) (hl : 2 - (1 - o.sqrt (1 - h * h - k * k)) ≠ 0) (hL : o.sqrt (1 - h * h - k * k) ≠ 0) (hsgn : sgn (4 - ix * ix - iy * iy) = 1) (hiz : o.sqrt (o.fabs (4 - ix * ix - iy * iy)) ≠ 0) :
+    d_k_ix o G m M a lam k h ix iy p q
+      = epsP72 (palMap (lift2 o sgn) (c2 G) (c2 m) (c2 M) (c2 a) (c2 lam) (v1 k) (c2 h) (v2 ix) (c2 iy)
+          ⟨⟨p, 1 / (1 - q) * o.sin (lam + p)⟩, ⟨0, 0⟩⟩ ⟨⟨q, 1 / (1 - q) * (o.cos (lam + p) - k)⟩, ⟨0, 0⟩⟩) :=
+  deriv2_k_ix_is_eps_partial o sgn G m M a lam k h ix iy p q hq hl hL hsgn hiz
+
+theorem c16_deriv2_k_iy_is_eps_partial (o : DOps K) (sgn : K → K) (G m M a lam k h ix iy p q : K)
+    (hq : 1 - q ≠ 0) (hl : 2 - (1 - o.sqrt (1 - h * h - k * k)) ≠ 0) (hL : o.sqrt (1 - h * h - k * k) ≠ 0) (hsgn : sgn (4 - ix * ix - iy * iy) = 1) (hiz : o.sqrt (o.fabs (4 - ix * ix - iy * iy)) ≠ 0) :
+    d_k_iy o G m M a lam k h ix iy p q
+      = epsP72 (palMap (lift2 o sgn) (c2 G) (c2 m) (c2 M) (c2 a) (c2 lam) (v1 k) (c2 h) (c2 ix) (v2 iy)
+          ⟨⟨p, 1 / (1 - q) * o.sin (lam + p)⟩, ⟨0, 0⟩⟩ ⟨⟨q, 1 / (1 - q) * (o.cos (lam + p) - k)⟩, ⟨0, 0⟩⟩) :=
+  deriv2_k_iy_is_eps_partial o sgn G m M a lam k h ix iy p q hq hl hL hsgn hiz
+
+theorem c16_deriv2_ix_ix_is_eps (o : DOps K) (sgn : K → K) (G m M a lam k h ix iy p q : K)
+    (hq : 1 - q ≠ 0) (hl : 2 - (1 - o.sqrt (1 - h * h - k * k)) ≠ 0) (hsgn : sgn (4 - ix * ix - iy * iy) = 1) (hiz : o.sqrt (o.fabs (4 - ix * ix - iy * iy)) ≠ 0) (habs : o.fabs (4 - ix * ix - iy * iy) = 4 - ix * ix - iy * iy) (hz2 : o.sqrt (4 - ix * ix - iy * iy) * o.sqrt (4 - ix * ix - iy * iy) = 4 - ix * ix - iy * iy) :
+    d_ix_ix o G m M a lam k h ix iy p q
+      = epsP72 (palMap (lift2 o sgn) (c2 G) (c2 m) (c2 M) (c2 a) (c2 lam) (c2 k) (c2 h) (v12 ix) (c2 iy)
+          ⟨⟨p, 0⟩, ⟨0, 0⟩⟩ ⟨⟨q, 0⟩, ⟨0, 0⟩⟩) :=
+  deriv2_ix_ix_is_eps o sgn G m M a lam k h ix iy p q hq hl hsgn hiz habs hz2
+
+theorem c16_deriv2_ix_iy_is_eps (o : DOps K) (sgn : K → K) (G m M a lam k h ix iy p q : K)
+    (hq : 1 - q ≠ 0) (hl : 2 - (1 - o.sqrt (1 - h * h - k * k)) ≠ 0) (hsgn : sgn (4 - ix * ix - iy * iy) = 1) (hiz : o.sqrt (o.fabs (4 - ix * ix - iy * iy)) ≠ 0) (habs : o.fabs (4 - ix * ix - iy * iy) = 4 - ix * ix - iy * iy) (hz2 : o.sqrt (4 - ix * ix - iy * iy) * o.sqrt (4 - ix * ix - iy * iy) = 4 - ix * ix - iy * iy) :
+    d_ix_iy o G m M a lam k h ix iy p q
+      = epsP72 (palMap (lift2 o sgn) (c2 G) (c2 m) (c2 M) (c2 a) (c2 lam) (c2 k) (c2 h) (v1 ix) (v2 iy)
+          ⟨⟨p, 0⟩, ⟨0, 0⟩⟩ ⟨⟨q, 0⟩, ⟨0, 0⟩⟩) :=
+  deriv2_ix_iy_is_eps o sgn G m M a lam k h ix iy p q hq hl hsgn hiz habs hz2
+
+theorem c16_deriv2_iy_iy_is_eps (o : DOps K) (sgn : K → K) (G m M a lam k h ix iy p q : K)
+    (hq : 1 - q ≠ 0) (hl : 2 - (1 - o.sqrt (1 - h * h - k * k)) ≠ 0) (hsgn : sgn (4 - ix * ix - iy * iy) = 1) (hiz : o.sqrt (o.fabs (4 - ix * ix - iy * iy)) ≠ 0) (habs : o.fabs (4 - ix * ix - iy * iy) = 4 - ix * ix - iy * iy) (hz2 : o.sqrt (4 - ix * ix - iy * iy) * o.sqrt (4 - ix * ix - iy * iy) = 4 - ix * ix - iy * iy) :
+    d_iy_iy o G m M a lam k h ix iy p q
+      = epsP72 (palMap (lift2 o sgn) (c2 G) (c2 m) (c2 M) (c2 a) (c2 lam) (c2 k) (c2 h) (c2 ix) (v12 iy)
+          ⟨⟨p, 0⟩, ⟨0, 0⟩⟩ ⟨⟨q, 0⟩, ⟨0, 0⟩⟩) :=
+  deriv2_iy_iy_is_eps o sgn G m M a lam k h ix iy p q hq hl hsgn hiz habs hz2
+
+theorem c16_deriv2_m_e_is_eps (o : DOps K) (sgn : K → K) (G m M a e inc Om om f : K)
+    (hr : 1 + e * o.cos f ≠ 0) (he : 1 - e * e ≠ 0) (ha : a ≠ 0) (hm : m + M ≠ 0) (hV0 : o.sqrt (G * (m + M) / a / (1 - e * e)) ≠ 0) (hV2 : o.sqrt (G * (m + M) / a / (1 - e * e)) * o.sqrt (G * (m + M) / a / (1 - e * e)) = G * (m + M) / a / (1 - e * e)) (hE : o.sqrt (1 - e * e) * o.sqrt (1 - e * e) = 1 - e * e) (hA : o.sqrt (G * (m + M) / a) = o.sqrt (G * (m + M) / a / (1 - e * e)) * o.sqrt (1 - e * e)) :
+    d_m_e o G m M a e inc Om om f
+      = epsP72 (orbMap (lift2 o sgn) (c2 G) (v1 m) (c2 M) (c2 a) (v2 e) (c2 inc) (c2 Om) (c2 om) (c2 f)) :=
+  deriv2_m_e_is_eps o sgn G m M a e inc Om om f hr he ha hm hV0 hV2 hE hA
+
+theorem c16_deriv2_m_inc_is_eps (o : DOps K) (sgn : K → K) (G m M a e inc Om om f : K)
+    (hr : 1 + e * o.cos f ≠ 0) (he : 1 - e * e ≠ 0) (ha : a ≠ 0) (hm : m + M ≠ 0) (hV0 : o.sqrt (G * (m + M) / a / (1 - e * e)) ≠ 0) (hV2 : o.sqrt (G * (m + M) / a / (1 - e * e)) * o.sqrt (G * (m + M) / a / (1 - e * e)) = G * (m + M) / a / (1 - e * e)) (hTm : o.sqrt (m + M) ≠ 0) (hZ : o.sqrt (G / a / (1 - e * e)) = o.sqrt (G * (m + M) / a / (1 - e * e)) / (m + M) * o.sqrt (m + M)) :
+    d_m_inc o G m M a e inc Om om f
+      = epsP72 (orbMap (lift2 o sgn) (c2 G) (v1 m) (c2 M) (c2 a) (c2 e) (v2 inc) (c2 Om) (c2 om) (c2 f)) :=
+  deriv2_m_inc_is_eps o sgn G m M a e inc Om om f hr he ha hm hV0 hV2 hTm hZ
+
+theorem c16_deriv2_m_Omega_is_eps (o : DOps K) (sgn : K → K) (G m M a e inc Om om f : K)
+    (hr : 1 + e * o.cos f ≠ 0) (he : 1 - e * e ≠ 0) (ha : a ≠ 0) (hm : m + M ≠ 0) (hV0 : o.sqrt (G * (m + M) / a / (1 - e * e)) ≠ 0) (hV2 : o.sqrt (G * (m + M) / a / (1 - e * e)) * o.sqrt (G * (m + M) / a / (1 - e * e)) = G * (m + M) / a / (1 - e * e)) (hTm : o.sqrt (m + M) ≠ 0) (hZ : o.sqrt (G / a / (1 - e * e)) = o.sqrt (G * (m + M) / a / (1 - e * e)) / (m + M) * o.sqrt (m + M)) :
+    d_m_Omega o G m M a e inc Om om f
+      = epsP72 (orbMap (lift2 o sgn) (c2 G) (v1 m) (c2 M) (c2 a) (c2 e) (c2 inc) (v2 Om) (c2 om) (c2 f)) :=
+  deriv2_m_Omega_is_eps o sgn G m M a e inc Om om f hr he ha hm hV0 hV2 hTm hZ
+
+theorem c16_deriv2_m_omega_is_eps (o : DOps K) (sgn : K → K) (G m M a e inc Om om f : K)
+    (hr : 1 + e * o.cos f ≠ 0) (he : 1 - e * e ≠ 0) (ha : a ≠ 0) (hm : m + M ≠ 0) (hV0 : o.sqrt (G * (m + M) / a / (1 - e * e)) ≠ 0) (hV2 : o.sqrt (G * (m + M) / a / (1 - e * e)) * o.sqrt (G * (m + M) / a / (1 - e * e)) = G * (m + M) / a / (1 - e * e)) (hTm : o.sqrt (m + M) ≠ 0) (hZ : o.sqrt (G / a / (1 - e * e)) = o.sqrt (G * (m + M) / a / (1 - e * e)) / (m + M) * o.sqrt (m + M)) :
+    d_m_omega o G m M a e inc Om om f
+      = epsP72 (orbMap (lift2 o sgn) (c2 G) (v1 m) (c2 M) (c2 a) (c2 e) (c2 inc) (c2 Om) (v2 om) (c2 f)) :=
+  deriv2_m_omega_is_eps o sgn G m M a e inc Om om f hr he ha hm hV0 hV2 hTm hZ
+
+theorem c16_deriv2_m_f_is_eps (o : DOps K) (sgn : K → K) (G m M a e inc Om om f : K)
+    (hr : 1 + e * o.cos f ≠ 0) (he : 1 - e * e ≠ 0) (ha : a ≠ 0) (hm : m + M ≠ 0) (hV0 : o.sqrt (G * (m + M) / a / (1 - e * e)) ≠ 0) (hV2 : o.sqrt (G * (m + M) / a / (1 - e * e)) * o.sqrt (G * (m + M) / a / (1 - e * e)) = G * (m + M) / a / (1 - e * e)) (hTm : o.sqrt (m + M) ≠ 0) (hZ : o.sqrt (G / a / (1 - e * e)) = o.sqrt (G * (m + M) / a / (1 - e * e)) / (m + M) * o.sqrt (m + M)) :
+    d_m_f o G m M a e inc Om om f
+      = epsP72 (orbMap (lift2 o sgn) (c2 G) (v1 m) (c2 M) (c2 a) (c2 e) (c2 inc) (c2 Om) (c2 om) (v2 f)) :=
+  deriv2_m_f_is_eps o sgn G m M a e inc Om om f hr he ha hm hV0 hV2 hTm hZ
+
+theorem c16_deriv2_a_e_is_eps (o : DOps K) (sgn : K → K) (G m M a e inc Om om f : K)
+    (hr : 1 + e * o.cos f ≠ 0) (he : 1 - e * e ≠ 0) (ha : a ≠ 0) (hm : m + M ≠ 0) (hV0 : o.sqrt (G * (m + M) / a / (1 - e * e)) ≠ 0) (hV2 : o.sqrt (G * (m + M) / a / (1 - e * e)) * o.sqrt (G * (m + M) / a / (1 - e * e)) = G * (m + M) / a / (1 - e * e)) (hE : o.sqrt (1 - e * e) * o.sqrt (1 - e * e) = 1 - e * e) (hA : o.sqrt (G * (m + M) / a) = o.sqrt (G * (m + M) / a / (1 - e * e)) * o.sqrt (1 - e * e)) :
+    d_a_e o G m M a e inc Om om f
+      = epsP72 (orbMap (lift2 o sgn) (c2 G) (c2 m) (c2 M) (v1 a) (v2 e) (c2 inc) (c2 Om) (c2 om) (c2 f)) :=
+  deriv2_a_e_is_eps o sgn G m M a e inc Om om f hr he ha hm hV0 hV2 hE hA
+
+theorem c16_deriv2_a_inc_is_eps (o : DOps K) (sgn : K → K) (G m M a e inc Om om f : K)
+    (hr : 1 + e * o.cos f ≠ 0) (he : 1 - e * e ≠ 0) (ha : a ≠ 0) (hm : m + M ≠ 0) (hV0 : o.sqrt (G * (m + M) / a / (1 - e * e)) ≠ 0) (hV2 : o.sqrt (G * (m + M) / a / (1 - e * e)) * o.sqrt (G * (m + M) / a / (1 - e * e)) = G * (m + M) / a / (1 - e * e)) (hA3 : o.sqrt (a * a * a) ≠ 0) (hY : o.sqrt (G * (m + M) / (1 - e * e)) = o.sqrt (G * (m + M) / a / (1 - e * e)) / a * o.sqrt (a * a * a)) :
+    d_a_inc o G m M a e inc Om om f
+      = epsP72 (orbMap (lift2 o sgn) (c2 G) (c2 m) (c2 M) (v1 a) (c2 e) (v2 inc) (c2 Om) (c2 om) (c2 f)) :=
+  deriv2_a_inc_is_eps o sgn G m M a e inc Om om f hr he ha hm hV0 hV2 hA3 hY
+
+theorem c16_deriv2_a_Omega_is_eps (o : DOps K) (sgn : K → K) (G m M a e inc Om om f : K)
+    (hr : 1 + e * o.cos f ≠ 0) (he : 1 - e * e ≠ 0) (ha : a ≠ 0) (hm : m + M ≠ 0) (hV0 : o.sqrt (G * (m + M) / a / (1 - e * e)) ≠ 0) (hV2 : o.sqrt (G * (m + M) / a / (1 - e * e)) * o.sqrt (G * (m + M) / a / (1 - e * e)) = G * (m + M) / a / (1 - e * e)) (hA3 : o.sqrt (a * a * a) ≠ 0) (hY : o.sqrt (G * (m + M) / (1 - e * e)) = o.sqrt (G * (m + M) / a / (1 - e * e)) / a * o.sqrt (a * a * a)) :
+    d_a_Omega o G m M a e inc Om om f
+      = epsP72 (orbMap (lift2 o sgn) (c2 G) (c2 m) (c2 M) (v1 a) (c2 e) (c2 inc) (v2 Om) (c2 om) (c2 f)) :=
+  deriv2_a_Omega_is_eps o sgn G m M a e inc Om om f hr he ha hm hV0 hV2 hA3 hY
+
+theorem c16_deriv2_a_omega_is_eps (o : DOps K) (sgn : K → K) (G m M a e inc Om om f : K)
+    (hr : 1 + e * o.cos f ≠ 0) (he : 1 - e * e ≠ 0) (ha : a ≠ 0) (hm : m + M ≠ 0) (hV0 : o.sqrt (G * (m + M) / a / (1 - e * e)) ≠ 0) (hV2 : o.sqrt (G * (m + M) / a / (1 - e * e)) * o.sqrt (G * (m + M) / a / (1 - e * e)) = G * (m + M) / a / (1 - e * e)) (hA3 : o.sqrt (a * a * a) ≠ 0) (hY : o.sqrt (G * (m + M) / (1 - e * e)) = o.sqrt (G * (m + M) / a / (1 - e * e)) / a * o.sqrt (a * a * a)) :
+    d_a_omega o G m M a e inc Om om f
+      = epsP72 (orbMap (lift2 o sgn) (c2 G) (c2 m) (c2 M) (v1 a) (c2 e) (c2 inc) (c2 Om) (v2 om) (c2 f)) :=
+  deriv2_a_omega_is_eps o sgn G m M a e inc Om om f hr he ha hm hV0 hV2 hA3 hY
+
+theorem c16_deriv2_a_f_is_eps (o : DOps K) (sgn : K → K) (G m M a e inc Om om f : K)
+    (hr : 1 + e * o.cos f ≠ 0) (he : 1 - e * e ≠ 0) (ha : a ≠ 0) (hm : m + M ≠ 0) (hV0 : o.sqrt (G * (m + M) / a / (1 - e * e)) ≠ 0) (hV2 : o.sqrt (G * (m + M) / a / (1 - e * e)) * o.sqrt (G * (m + M) / a / (1 - e * e)) = G * (m + M) / a / (1 - e * e)) (hA3 : o.sqrt (a * a * a) ≠ 0) (hY : o.sqrt (G * (m + M) / (1 - e * e)) = o.sqrt (G * (m + M) / a / (1 - e * e)) / a * o.sqrt (a * a * a)) :
+    d_a_f o G m M a e inc Om om f
+      = epsP72 (orbMap (lift2 o sgn) (c2 G) (c2 m) (c2 M) (v1 a) (c2 e) (c2 inc) (c2 Om) (c2 om) (v2 f)) :=
+  deriv2_a_f_is_eps o sgn G m M a e inc Om om f hr he ha hm hV0 hV2 hA3 hY
+
+theorem c16_deriv2_e_inc_is_eps (o : DOps K) (sgn : K → K) (G m M a e inc Om om f : K)
+    (hr : 1 + e * o.cos f ≠ 0) (he : 1 - e * e ≠ 0) (ha : a ≠ 0) (hm : m + M ≠ 0) (hV0 : o.sqrt (G * (m + M) / a / (1 - e * e)) ≠ 0) (hV2 : o.sqrt (G * (m + M) / a / (1 - e * e)) * o.sqrt (G * (m + M) / a / (1 - e * e)) = G * (m + M) / a / (1 - e * e)) (hE : o.sqrt (1 - e * e) * o.sqrt (1 - e * e) = 1 - e * e) (hA : o.sqrt (G * (m + M) / a) = o.sqrt (G * (m + M) / a / (1 - e * e)) * o.sqrt (1 - e * e)) :
+    d_e_inc o G m M a e inc Om om f
+      = epsP72 (orbMap (lift2 o sgn) (c2 G) (c2 m) (c2 M) (c2 a) (v1 e) (v2 inc) (c2 Om) (c2 om) (c2 f)) :=
+  deriv2_e_inc_is_eps o sgn G m M a e inc Om om f hr he ha hm hV0 hV2 hE hA
+
+theorem c16_deriv2_e_Omega_is_eps (o : DOps K) (sgn : K → K) (G m M a e inc Om om f : K)
+    (hr : 1 + e * o.cos f ≠ 0) (he : 1 - e * e ≠ 0) (ha : a ≠ 0) (hm : m + M ≠ 0) (hV0 : o.sqrt (G * (m + M) / a / (1 - e * e)) ≠ 0) (hV2 : o.sqrt (G * (m + M) / a / (1 - e * e)) * o.sqrt (G * (m + M) / a / (1 - e * e)) = G * (m + M) / a / (1 - e * e)) (hE : o.sqrt (1 - e * e) * o.sqrt (1 - e * e) = 1 - e * e) (hA : o.sqrt (G * (m + M) / a) = o.sqrt (G * (m + M) / a / (1 - e * e)) * o.sqrt (1 - e * e)) :
+    d_e_Omega o G m M a e inc Om om f
+      = epsP72 (orbMap (lift2 o sgn) (c2 G) (c2 m) (c2 M) (c2 a) (v1 e) (c2 inc) (v2 Om) (c2 om) (c2 f)) :=
+  deriv2_e_Omega_is_eps o sgn G m M a e inc Om om f hr he ha hm hV0 hV2 hE hA
+
+theorem c16_deriv2_e_omega_is_eps (o : DOps K) (sgn : K → K) (G m M a e inc Om om f : K)
+    (hr : 1 + e * o.cos f ≠ 0) (he : 1 - e * e ≠ 0) (ha : a ≠ 0) (hm : m + M ≠ 0) (hV0 : o.sqrt (G * (m + M) / a / (1 - e * e)) ≠ 0) (hV2 : o.sqrt (G * (m + M) / a / (1 - e * e)) * o.sqrt (G * (m + M) / a / (1 - e * e)) = G * (m + M) / a / (1 - e * e)) (hE : o.sqrt (1 - e * e) * o.sqrt (1 - e * e) = 1 - e * e) (hA : o.sqrt (G * (m + M) / a) = o.sqrt (G * (m + M) / a / (1 - e * e)) * o.sqrt (1 - e * e)) :
+    d_e_omega o G m M a e inc Om om f
+      = epsP72 (orbMap (lift2 o sgn) (c2 G) (c2 m) (c2 M) (c2 a) (v1 e) (c2 inc) (c2 Om) (v2 om) (c2 f)) :=
+  deriv2_e_omega_is_eps o sgn G m M a e inc Om om f hr he ha hm hV0 hV2 hE hA
+
+theorem c16_deriv2_e_f_is_eps (o : DOps K) (sgn : K → K) (G m M a e inc Om om f : K)
+    (hr : 1 + e * o.cos f ≠ 0) (he : 1 - e * e ≠ 0) (ha : a ≠ 0) (hm : m + M ≠ 0) (hV0 : o.sqrt (G * (m + M) / a / (1 - e * e)) ≠ 0) (hV2 : o.sqrt (G * (m + M) / a / (1 - e * e)) * o.sqrt (G * (m + M) / a / (1 - e * e)) = G * (m + M) / a / (1 - e * e)) (hE : o.sqrt (1 - e * e) * o.sqrt (1 - e * e) = 1 - e * e) (hA : o.sqrt (G * (m + M) / a) = o.sqrt (G * (m + M) / a / (1 - e * e)) * o.sqrt (1 - e * e)) :
+    d_e_f o G m M a e inc Om om f
+      = epsP72 (orbMap (lift2 o sgn) (c2 G) (c2 m) (c2 M) (c2 a) (v1 e) (c2 inc) (c2 Om) (c2 om) (v2 f)) :=
+  deriv2_e_f_is_eps o sgn G m M a e inc Om om f hr he ha hm hV0 hV2 hE hA
+
+theorem c16_deriv2_inc_inc_is_eps (o : DOps K) (sgn : K → K) (G m M a e inc Om om f : K)
+    (hr : 1 + e * o.cos f ≠ 0) (he : 1 - e * e ≠ 0) (ha : a ≠ 0) (hm : m + M ≠ 0) (hV0 : o.sqrt (G * (m + M) / a / (1 - e * e)) ≠ 0) (hV2 : o.sqrt (G * (m + M) / a / (1 - e * e)) * o.sqrt (G * (m + M) / a / (1 - e * e)) = G * (m + M) / a / (1 - e * e)) :
+    d_inc_inc o G m M a e inc Om om f
+      = epsP72 (orbMap (lift2 o sgn) (c2 G) (c2 m) (c2 M) (c2 a) (c2 e) (v12 inc) (c2 Om) (c2 om) (c2 f)) :=
+  deriv2_inc_inc_is_eps o sgn G m M a e inc Om om f hr he ha hm hV0 hV2
+
+theorem c16_deriv2_inc_Omega_is_eps (o : DOps K) (sgn : K → K) (G m M a e inc Om om f : K)
+    (hr : 1 + e * o.cos f ≠ 0) (he : 1 - e * e ≠ 0) (ha : a ≠ 0) (hm : m + M ≠ 0) (hV0 : o.sqrt (G * (m + M) / a / (1 - e * e)) ≠ 0) (hV2 : o.sqrt (G * (m + M) / a / (1 - e * e)) * o.sqrt (G * (m + M) / a / (1 - e * e)) = G * (m + M) / a / (1 - e * e)) :
+    d_inc_Omega o G m M a e inc Om om f
+      = epsP72 (orbMap (lift2 o sgn) (c2 G) (c2 m) (c2 M) (c2 a) (c2 e) (v1 inc) (v2 Om) (c2 om) (c2 f)) :=
+  deriv2_inc_Omega_is_eps o sgn G m M a e inc Om om f hr he ha hm hV0 hV2
+
+theorem c16_deriv2_inc_omega_is_eps (o : DOps K) (sgn : K → K) (G m M a e inc Om om f : K)
+    (hr : 1 + e * o.cos f ≠ 0) (he : 1 - e * e ≠ 0) (ha : a ≠ 0) (hm : m + M ≠ 0) (hV0 : o.sqrt (G * (m + M) / a / (1 - e * e)) ≠ 0) (hV2 : o.sqrt (G * (m + M) / a / (1 - e * e)) * o.sqrt (G * (m + M) / a / (1 - e * e)) = G * (m + M) / a / (1 - e * e)) :
+    d_inc_omega o G m M a e inc Om om f
+      = epsP72 (orbMap (lift2 o sgn) (c2 G) (c2 m) (c2 M) (c2 a) (c2 e) (v1 inc) (c2 Om) (v2 om) (c2 f)) :=
+  deriv2_inc_omega_is_eps o sgn G m M a e inc Om om f hr he ha hm hV0 hV2
+
+theorem c16_deriv2_inc_f_is_eps (o : DOps K) (sgn : K → K) (G m M a e inc Om om f : K)
+    (hr : 1 + e * o.cos f ≠ 0) (he : 1 - e * e ≠ 0) (ha : a ≠ 0) (hm : m + M ≠ 0) (hV0 : o.sqrt (G * (m + M) / a / (1 - e * e)) ≠ 0) (hV2 : o.sqrt (G * (m + M) / a / (1 - e * e)) * o.sqrt (G * (m + M) / a / (1 - e * e)) = G * (m + M) / a / (1 - e * e)) :
+    d_inc_f o G m M a e inc Om om f
+      = epsP72 (orbMap (lift2 o sgn) (c2 G) (c2 m) (c2 M) (c2 a) (c2 e) (v1 inc) (c2 Om) (c2 om) (v2 f)) :=
+  deriv2_inc_f_is_eps o sgn G m M a e inc Om om f hr he ha hm hV0 hV2
+
+theorem c16_deriv2_Omega_Omega_is_eps (o : DOps K) (sgn : K → K) (G m M a e inc Om om f : K)
+    (hr : 1 + e * o.cos f ≠ 0) (he : 1 - e * e ≠ 0) (ha : a ≠ 0) (hm : m + M ≠ 0) (hV0 : o.sqrt (G * (m + M) / a / (1 - e * e)) ≠ 0) (hV2 : o.sqrt (G * (m + M) / a / (1 - e * e)) * o.sqrt (G * (m + M) / a / (1 - e * e)) = G * (m + M) / a / (1 - e * e)) :
+    d_Omega_Omega o G m M a e inc Om om f
+      = epsP72 (orbMap (lift2 o sgn) (c2 G) (c2 m) (c2 M) (c2 a) (c2 e) (c2 inc) (v12 Om) (c2 om) (c2 f)) :=
+  deriv2_Omega_Omega_is_eps o sgn G m M a e inc Om om f hr he ha hm hV0 hV2
+
+theorem c16_deriv2_omega_Omega_is_eps (o : DOps K) (sgn : K → K) (G m M a e inc Om om f : K)
+    (hr : 1 + e * o.cos f ≠ 0) (he : 1 - e * e ≠ 0) (ha : a ≠ 0) (hm : m + M ≠ 0) (hV0 : o.sqrt (G * (m + M) / a / (1 - e * e)) ≠ 0) (hV2 : o.sqrt (G * (m + M) / a / (1 - e * e)) * o.sqrt (G * (m + M) / a / (1 - e * e)) = G * (m + M) / a / (1 - e * e)) :
+    d_omega_Omega o G m M a e inc Om om f
+      = epsP72 (orbMap (lift2 o sgn) (c2 G) (c2 m) (c2 M) (c2 a) (c2 e) (c2 inc) (v2 Om) (v1 om) (c2 f)) :=
+  deriv2_omega_Omega_is_eps o sgn G m M a e inc Om om f hr he ha hm hV0 hV2
+
+theorem c16_deriv2_Omega_f_is_eps (o : DOps K) (sgn : K → K) (G m M a e inc Om om f : K)
+    (hr : 1 + e * o.cos f ≠ 0) (he : 1 - e * e ≠ 0) (ha : a ≠ 0) (hm : m + M ≠ 0) (hV0 : o.sqrt (G * (m + M) / a / (1 - e * e)) ≠ 0) (hV2 : o.sqrt (G * (m + M) / a / (1 - e * e)) * o.sqrt (G * (m + M) / a / (1 - e * e)) = G * (m + M) / a / (1 - e * e)) :
+    d_Omega_f o G m M a e inc Om om f
+      = epsP72 (orbMap (lift2 o sgn) (c2 G) (c2 m) (c2 M) (c2 a) (c2 e) (c2 inc) (v1 Om) (c2 om) (v2 f)) :=
+  deriv2_Omega_f_is_eps o sgn G m M a e inc Om om f hr he ha hm hV0 hV2
+
+theorem c16_deriv2_omega_omega_is_eps (o : DOps K) (sgn : K → K) (G m M a e inc Om om f : K)
+    (hr : 1 + e * o.cos f ≠ 0) (he : 1 - e * e ≠ 0) (ha : a ≠ 0) (hm : m + M ≠ 0) (hV0 : o.sqrt (G * (m + M) / a / (1 - e * e)) ≠ 0) (hV2 : o.sqrt (G * (m + M) / a / (1 - e * e)) * o.sqrt (G * (m + M) / a / (1 - e * e)) = G * (m + M) / a / (1 - e * e)) :
+    d_omega_omega o G m M a e inc Om om f
+      = epsP72 (orbMap (lift2 o sgn) (c2 G) (c2 m) (c2 M) (c2 a) (c2 e) (c2 inc) (c2 Om) (v12 om) (c2 f)) :=
+  deriv2_omega_omega_is_eps o sgn G m M a e inc Om om f hr he ha hm hV0 hV2
+
+theorem c16_deriv2_omega_f_is_eps (o : DOps K) (sgn : K → K) (G m M a e inc Om om f : K)
+    (hr : 1 + e * o.cos f ≠ 0) (he : 1 - e * e ≠ 0) (ha : a ≠ 0) (hm : m + M ≠ 0) (hV0 : o.sqrt (G * (m + M) / a / (1 - e * e)) ≠ 0) (hV2 : o.sqrt (G * (m + M) / a / (1 - e * e)) * o.sqrt (G * (m + M) / a / (1 - e * e)) = G * (m + M) / a / (1 - e * e)) :
+    d_omega_f o G m M a e inc Om om f
+      = epsP72 (orbMap (lift2 o sgn) (c2 G) (c2 m) (c2 M) (c2 a) (c2 e) (c2 inc) (c2 Om) (v1 om) (v2 f)) :=
+  deriv2_omega_f_is_eps o sgn G m M a e inc Om om f hr he ha hm hV0 hV2
+
+theorem c16_deriv2_f_f_is_eps (o : DOps K) (sgn : K → K) (G m M a e inc Om om f : K)
+    (hr : 1 + e * o.cos f ≠ 0) (he : 1 - e * e ≠ 0) (ha : a ≠ 0) (hm : m + M ≠ 0) (hV0 : o.sqrt (G * (m + M) / a / (1 - e * e)) ≠ 0) (hV2 : o.sqrt (G * (m + M) / a / (1 - e * e)) * o.sqrt (G * (m + M) / a / (1 - e * e)) = G * (m + M) / a / (1 - e * e)) :
+    d_f_f o G m M a e inc Om om f
+      = epsP72 (orbMap (lift2 o sgn) (c2 G) (c2 m) (c2 M) (c2 a) (c2 e) (c2 inc) (c2 Om) (c2 om) (v12 f)) :=
+  deriv2_f_f_is_eps o sgn G m M a e inc Om om f hr he ha hm hV0 hV2
+
+end RV.Var
+
+/-! ### `vary()` name dispatch (rebound/particle.py, rebound/variation.py) — finite tables, `decide`
+
+`RV.Gen.C16Dispatch` is regenerated from particle.py / derivatives.c on every run. -/
+namespace RV.Var
+open RV.Gen.C16Dispatch
+
+/-- the source has the shape the model assumes: it swaps by list position and builds the
+    symbol as prefix + name (+ "_" + name2) -/
+theorem c16_dispatch_source_shape : swapsPairs = true ∧ namePatternOk = true := by decide
+
+/-- every documented parameter name (both docstrings) is accepted and maps to the C function of
+    exactly that name, which exists -/
+theorem c16_dispatch_first_order_documented :
+    ∀ d ∈ documented, ∀ v ∈ d, dispatch1 variationTypes shortcuts v = some v ∧ cFunctions.contains v = true := by
+  decide +kernel
+
+/-- the table and the documentation list the same names -/
+theorem c16_dispatch_documented_eq_table : ∀ d ∈ documented, d = variationTypes := by decide +kernel
+
+/-- pairs: the dispatch is symmetric, and the resulting C function exists exactly when both
+    names belong to one element family (classical or Pal; `m`, `a` are in both) -/
+theorem c16_dispatch_second_order :
+    ∀ v1 ∈ variationTypes, ∀ v2 ∈ variationTypes,
+      dispatch2 variationTypes shortcuts v1 v2 = dispatch2 variationTypes shortcuts v2 v1 ∧
+      ((dispatch2 variationTypes shortcuts v1 v2).any (fun n => cFunctions.contains n)
+        = ((orbFamily.contains v1 && orbFamily.contains v2) || (palFamily.contains v1 && palFamily.contains v2))) := by
+  decide +kernel
+
+/-- the shortcuts reach documented names, and no C function is unreachable from the table -/
+theorem c16_dispatch_shortcuts_and_coverage :
+    (∀ p ∈ shortcuts, variationTypes.contains p.2 = true) ∧ shortcuts = shortcuts2 ∧
+    (∀ n ∈ cFunctions, (variationTypes.any (fun v => dispatch1 variationTypes shortcuts v == some n)) ||
+       (variationTypes.any (fun v1 => variationTypes.any (fun v2 => dispatch2 variationTypes shortcuts v1 v2 == some n))) = true) := by
+  decide +kernel
+
+end RV.Var
+
+/-! ### MEGNO bookkeeping (reb_tools_megno_update) -/
+namespace RV.Var
+open RV
+variable {K : Type} [Field K] [CharZero K]
+
+/-- **The recurrences compute the defined sums and time averages.**  After any history of
+    updates `(t_i, dY_i, dt_i)` starting from any state: the counter counts; `megno_Ys` is the
+    sum of the `dY`; `megno_Yss` is the time integral Σ Y(t_i)·dt_i of Y(t_i) = Ys_i/t_i (so
+    `reb_simulation_megno` = Yss/t is the time average <Y>); `megno_mean_t` is the arithmetic mean
+    of the update times and `megno_mean_Y` the arithmetic mean of the reported <Y> values
+    (both stated multiplied by n; any `isZero`, any times — division by t=0 follows field
+    conventions exactly as in the model). -/
+theorem c16_megno_running_sums (isZero : K → Bool) (l : List (K × K × K)) (s : Megno K) :
+    let r := megnoRun isZero s l
+    r.n = s.n + l.length ∧
+    r.Ys = s.Ys + (l.map (fun u => u.2.1)).sum ∧
+    r.Yss = s.Yss + yIntegral s.Ys l ∧
+    r.meanT * (r.n : K) = s.meanT * (s.n : K) + (l.map (fun u => u.1)).sum ∧
+    r.meanY * (r.n : K) = s.meanY * (s.n : K) + (megnoValues isZero s l).sum :=
+  megnoRun_spec isZero l s
+
+/-- `megno_var_t` (and `megno_cov_Yt`, same weight) is *not* the textbook sum of squares: each
+    update adds Welford's increment `(t−m_old)(t−m_new)` times `((n−1)/n)²`.  The Lyapunov
+    estimate cov/var is therefore a least-squares slope with weights tending to 1 — consistent,
+    but not the unweighted fit the comment in the source suggests. -/
+theorem c16_megno_var_increment (isZero : K → Bool) (s : Megno K) (t dY dt : K) :
+    let s' := megnoUpdate isZero s t dY dt
+    let n : K := ((s.n + 1 : ℕ) : K)
+    s'.var - s.var = ((n - 1) / n) ^ 2 * ((t - s.meanT) * (t - s'.meanT)) ∧
+    t - s'.meanT = (n - 1) / n * (t - s.meanT) :=
+  megno_var_step isZero s t dY dt
 
 end RV.Var
